@@ -128,6 +128,15 @@ def g_getinfo_is_fresh(C, rep, rid):
         rep.anchor(rid, "Ok exits of %s" % mn, n, 1, fn=k)
 
 
+def _only_via(b, errt, okt, s):
+    return False
+
+
+def _err_reaches_without_return(b, errt, site):
+    """does control continue from the Err arm of a listing to the block `site` (an Ok exit)?"""
+    return site in b.reach([errt])
+
+
 def need_provider(C, rep, rid):
     ms = provider_model(C)
     ok = rep.anchor(rid, "non-test impl of PaymentProvider", len(ms), 1)
@@ -190,8 +199,13 @@ def d_dispatch(C, rep, rid):
                 rep.ob(rid, False, fn, "return shape", where=loc(b.span), detail="pay() can return %s" % show(e)[:120])
                 continue
             if site not in after and site != p.bb:
-                # before the RPC was issued nothing is in flight
-                rep.ob(rid, kind in ("Err", "residual"), fn, "exit before the pay RPC", where=where, how="nothing issued yet", detail="" if kind in ("Err", "residual") else "returns Ok before paying", nontrivial=False)
+                # before the RPC was issued nothing is in flight - by THIS call.  An earlier attempt for the hash may be (the
+                # lifecycle's pay for a hash whose previous pay is still running in the node, an already paid invoice): only the
+                # node knows, so pay() may give up before asking only because it could not build the request (a propagated error),
+                # never by a verdict of its own on the request's values
+                okb = kind == "residual"
+                rep.ob(rid, okb, fn, "exit before the pay RPC only propagates an error", where=where, how="`?` of a failed step" if okb else "",
+                       detail="" if okb else ("pay() returns Ok before paying" if kind == "Ok" else "pay() gives up at %s on its own verdict about the request, without asking the node: if an earlier attempt for the hash is pending or complete, failure is reported while it can still succeed" % where))
                 continue
             n_after += 1
             facts = enum_facts(b, X, site)
@@ -440,6 +454,22 @@ def v_wait_payment(C, rep, pfx):
             o1 = awp["ready"] is not None and b.dominates(awp["ready"], awc["poll"].bb) and b.dominates(awp["ready"], cc.bb)
             rep.ob(rid, o1, fn, "PENDING listing completes before the COMPLETE query is issued", where=cc.loc, how="Ready edge of the PENDING await dominates the COMPLETE call",
                    detail="" if o1 else "the COMPLETE listing is issued/awaited before the PENDING listing returned: a part pending at the first query and complete before the second is reported as `none`")
+        # ---- V10: a listing that failed says nothing
+        rid = pfx + "-V10"
+        rep.rule(rid, "a failed listsendpays makes wait_payment fail: its Err arm reaches no Ok exit (an empty list substituted for a failed COMPLETE listing hides a completed part)")
+        okx = [(k, s_, w) for k, e, s_, w in result_alternatives(b, X) if k == "Ok"]
+        rep.anchor(rid, "Ok exits of wait_payment", len(okx), 2, fn=fn)
+        for k, s_, w in okx:
+            facts = enum_facts(b, X, s_)
+            for c in LS:
+                good = False
+                for fe, truth, _c in facts:
+                    if fe is None or truth not in (("Ok",), ("Continue",)):
+                        continue
+                    if any(y[0] == "call" and y[3][1] == c.bb for a in alts(fe) for y in walk(a)) and all(any(y[0] == "call" and y[3][1] == c.bb for y in walk(a)) for a in alts(fe)):
+                        good = True
+                rep.ob(rid, good, fn, "Ok exit only after the listing succeeded", where=w, how="dominated by the Ok/Continue arm of listsendpays at %s" % c.loc,
+                       detail="" if good else "wait_payment can return Ok at %s although the listing at %s failed: the failed listing is treated as an empty one (a completed part is not seen)" % (w, c.loc))
         # ---- V2
         rid = pfx + "-V2"
         rep.rule(rid, "Ok(None) only after the stream of waitsendpay futures - one per listed pending part - is exhausted")
